@@ -98,6 +98,7 @@ impl CPUEmulator {
             );
             self.bram_write(BRAM_SELECT_CONTROLLER, ADDR_MOD_REP0, 0xFFFF);
             self.bram_write(BRAM_SELECT_CONTROLLER, ADDR_MOD_REP1, 0xFFFF);
+            self.change_mod_wr_page(0);
             self.change_mod_wr_segment(0);
             self.bram_write(BRAM_SELECT_MOD, 0, 0xFFFF);
             self.change_mod_wr_segment(1);
